@@ -1,4 +1,5 @@
 import Ebu.Generated.Consts
+import Ebu.Generated.SqlFacts
 import Ebu.Spec.Log
 import Ebu.Proofs.Log
 /-!
@@ -75,6 +76,15 @@ theorem ds_replay_untruncated_partial (chunk : Nat) (hc : 0 < chunk) (rs : List 
     (replayPaged (dsOf chunk rs).read {} batch fuel 0 [] []).err = none ∧
     (replayPaged (dsOf chunk rs).read {} batch fuel 0 [] []).delivered.map (·.2) = rs :=
   Ebu.Log.ds_replay_untruncated_partial chunk hc rs h batch hb fuel hf
+
+/-- OBLIGATION on the current source: every SELECT over the events table (paged read, stream, batched stream) is a
+position cursor – `WHERE position > ? ORDER BY position`, optionally `LIMIT ?` – as the models of `Read`, the stream and
+`replaySqlBatched` assume; none pages with OFFSET (which counts rows instead of remembering where it was) -/
+theorem sqlite_reads_are_position_cursors :
+    Ebu.Generated.Sql.readSqls.length ≥ 3 ∧
+    (Ebu.Generated.Sql.readSqls.all (fun st =>
+      (st.drop 8).take 7 == ["FROM", "events", "WHERE", "position", ">", "?", "ORDER"] && !st.contains "OFFSET" &&
+      (st.drop 15 == ["BY", "position"] || st.drop 15 == ["BY", "position", "LIMIT", "?"]))) = true := by decide
 
 /-- the model's default batch size is the one in the CURRENT source (extracted from Replay) -/
 theorem default_batch_matches_source : effBatch 0 = Ebu.Generated.Consts.replayDefaultBatch ∧ effBatch (-5) = Ebu.Generated.Consts.replayDefaultBatch := by
